@@ -31,7 +31,7 @@ OPERANDS = {
     'i0': '0', 'i1': '1', 'i-1': '-1', 'i2': '2', 'i7': '7', 'i12345': '12345', 'i10^27': '10**27', 'i10^28-1': '10**28-1', 'i10^28': '10**28',
     'i10^40': '10**40', 'i2^200': '2**200', 'i-2^200': '-(2**200)', 'i10^18': '10**18', 'i2^63': '2**63-1', 'i20000': '20000',
     'bT': 'True', 'bF': 'False',
-    'f.5': '0.5', 'f.1': '0.1', 'f1e300': '1e300', 'f-0': '-0.0', 'f3': '3.0', 'f1e-300': '1e-300',
+    'f.5': '0.5', 'f.25': '0.25', 'f.75': '0.75', 'f.375': '0.375', 'f.1': '0.1', 'f1e300': '1e300', 'f-0': '-0.0', 'f3': '3.0', 'f1e-300': '1e-300',
     'd0': "D('0')", 'd1': "D('1')", 'd.1': "D('0.1')", 'd28x9': "D('9'*28)", 'd29': "D('1'+'0'*27+'5')", 'd41': "D('123456789'*4+'12345')",
     'd1E400': "D('1E+400')", 'd9E999999': "D('9E+999999')", 'd1E-999999': "D('1E-999999')", 'd1E5000': "D('1E+5000')", 'd-7': "D('-7')",
     'd2': "D('2')", 'd.5': "D('0.5')", 'd1000': "D('1000')", 'd12345': "D('12345')", 'd1E30': "D('1E+30')", 'd3.000': "D('3.000')",
